@@ -27,16 +27,16 @@ type deltaScn struct {
 	Gen    *dgen  `json:"gen,omitempty"`
 	Class  string `json:"class,omitempty"`
 	// C16 (DeltaEdit scenarios): what the literal bound is computed from, in symbols
-	Kind  string `json:"kind,omitempty"` // edits | perm
-	Ins   int    `json:"ins"`
-	Slack int    `json:"slack"`
-	Edits int    `json:"edits"`
-	Bounded bool `json:"bounded"` // for gen cases: apply the bound
+	Kind    string `json:"kind,omitempty"` // edits | perm
+	Ins     int    `json:"ins"`
+	Slack   int    `json:"slack"`
+	Edits   int    `json:"edits"`
+	Bounded bool   `json:"bounded"` // for gen cases: apply the bound
 }
 
 // dgen describes concrete-domain data (too large for TLC to enumerate).
 type dgen struct {
-	Kind  string  `json:"kind"`  // random | zero | period | edits | weakcoll | dupblocks | remreuse | unrelated
+	Kind  string  `json:"kind"` // random | zero | period | edits | weakcoll | dupblocks | remreuse | unrelated
 	Seed  int64   `json:"seed"`
 	Size  int     `json:"size"`  // basis size
 	TSize int     `json:"tsize"` // target size for kinds that need it
@@ -52,43 +52,43 @@ type dedit struct {
 }
 
 type deltaTok struct {
-	K    string `json:"k"` // lit | ref
-	N    int    `json:"n"`
-	D    []int  `json:"d"`
-	Bytes int64 `json:"bytes"`
-	Eq   bool   `json:"eq"`
-	I    int32  `json:"i"`
-	BL   int    `json:"bl"`
-	Fit  bool   `json:"fit"`
-	Wk   bool   `json:"wk"`
-	Ss   bool   `json:"ss"`
-	Same bool   `json:"same"`
+	K     string `json:"k"` // lit | ref
+	N     int    `json:"n"`
+	D     []int  `json:"d"`
+	Bytes int64  `json:"bytes"`
+	Eq    bool   `json:"eq"`
+	I     int32  `json:"i"`
+	BL    int    `json:"bl"`
+	Fit   bool   `json:"fit"`
+	Wk    bool   `json:"wk"`
+	Ss    bool   `json:"ss"`
+	Same  bool   `json:"same"`
 }
 
 type deltaObs struct {
-	ID      int        `json:"id"`
-	Class   string     `json:"class"`
-	Small   bool       `json:"small"`
-	Basis   []int      `json:"basis"`
-	Target  []int      `json:"target"`
-	TLen    int        `json:"tlen"`
-	BLen    int        `json:"blen"`
-	Blk     int32      `json:"blk"`
-	S2      int32      `json:"s2"`
-	Count   int32      `json:"count"`
-	Rem     int32      `json:"rem"`
-	IdxOK   bool       `json:"idxok"`
-	HdrOK   bool       `json:"hdrok"`
-	Toks    []deltaTok `json:"toks"`
-	Ended   bool       `json:"ended"`
-	SumOK   bool       `json:"sumok"`
-	Err     string     `json:"err"`
-	Lit     int64      `json:"lit"`
-	Bounded bool       `json:"bounded"`  // C16: the literal bound applies to this case
-	Inserted int64     `json:"inserted"` // bytes inserted by the edits
-	Slack   int64      `json:"slack"`    // bytes that cannot match for structural reasons
-	NEdits  int        `json:"nedits"`
-	Scn     json.RawMessage `json:"scn"`
+	ID       int             `json:"id"`
+	Class    string          `json:"class"`
+	Small    bool            `json:"small"`
+	Basis    []int           `json:"basis"`
+	Target   []int           `json:"target"`
+	TLen     int             `json:"tlen"`
+	BLen     int             `json:"blen"`
+	Blk      int32           `json:"blk"`
+	S2       int32           `json:"s2"`
+	Count    int32           `json:"count"`
+	Rem      int32           `json:"rem"`
+	IdxOK    bool            `json:"idxok"`
+	HdrOK    bool            `json:"hdrok"`
+	Toks     []deltaTok      `json:"toks"`
+	Ended    bool            `json:"ended"`
+	SumOK    bool            `json:"sumok"`
+	Err      string          `json:"err"`
+	Lit      int64           `json:"lit"`
+	Bounded  bool            `json:"bounded"`  // C16: the literal bound applies to this case
+	Inserted int64           `json:"inserted"` // bytes inserted by the edits
+	Slack    int64           `json:"slack"`    // bytes that cannot match for structural reasons
+	NEdits   int             `json:"nedits"`
+	Scn      json.RawMessage `json:"scn"`
 }
 
 func symBytes(v int, scale int, seed int64) []byte {
